@@ -57,6 +57,30 @@ def overlapped_rule(ctx, rep, clause):
                     ob(rep, 'CALL-overlapped', f.fq, f'new regex scan `{norm_stmt(node)[:70]}`', ov,
                        'overlapped=True', f'a regex enumeration outside the reviewed table without overlapped=True: '
                        f'`{norm_stmt(node)[:70]}`', f.loc(node), clause)
+    # a required enumerator may also be written as a str.find loop: it must resume one position after each hit
+    for fq in OVERLAP_REQUIRED:
+        f = program.func(fq)
+        has_re = any(isinstance(n, ast.Call) and isinstance(n.func, ast.Attribute) and n.func.attr in ('finditer', 'findall')
+                     for n in walk_own(f.node))
+        if has_re:
+            continue
+        finds = [n for n in walk_own(f.node) if isinstance(n, ast.Call) and isinstance(n.func, ast.Attribute) and
+                 n.func.attr in ('find', 'index') and len(n.args) >= 2]
+        if not finds:
+            raise AnalysisError(f'{fq}: no occurrence enumeration recognised (neither a regex scan nor a find loop)')
+        for c in finds:
+            n_req += 1
+            resume = c.args[1]
+            src = norm_stmt(resume)
+            if isinstance(resume, ast.Name):
+                for a in walk_own(f.node):
+                    if isinstance(a, ast.Assign) and any(isinstance(t, ast.Name) and t.id == resume.id for t in a.targets) \
+                            and not (isinstance(a.value, ast.Constant)):
+                        src = norm_stmt(a.value)
+            ok = src.replace(' ', '').endswith('+1') and 'len' not in src and 'size' not in src
+            ob(rep, 'CALL-overlapped', fq, f'find loop `{norm_stmt(c)[:60]}` resumes one position after each hit', ok,
+               f'resumes at {src}', f'the scan resumes at `{src}`: occurrences that overlap the previous hit are skipped '
+               f'(query AA in target AAA is found at 0 only)', f.loc(c), clause)
     rep.floor('CALL-overlapped', 'occurrence-enumerating scans', n_req, 3)
 
 
